@@ -133,7 +133,7 @@ pub mod q {
 #[cfg(feature = "c04_t")]
 pub mod t {
     /// From an arbitrary valid representation state with a three-word
-    /// upper-bits vector (efstate.rs: N = 66, U = 100, every clustered
+    /// upper-bits vector (efstate.rs: N = 44, U = 86, every clustered
     /// sequence inside). Oracles by witness: the element of a symbolic rank is
     /// the position of the one of that rank minus the rank.
     pub mod state {
@@ -141,60 +141,78 @@ pub mod t {
         use crate::efstate::*;
         use sux::prelude::*;
 
-        #[kani::proof]
-        #[kani::unwind(70)]
-        #[kani::stub(f64::log2, log2_tab)]
-        pub fn succ_from_any_state() {
-            let (ef, high) = any_state();
-            let q: usize = kani::any();
-            let strict: bool = kani::any();
-            let last = x_at(&high, N - 1);
-            let none = if strict { last <= q } else { last < q };
-            let r = if strict { ef.succ_strict(q) } else { ef.succ(q) };
-            match r {
-                None => assert!(none),
-                Some((j, v)) => {
-                    assert!(!none && j < N);
-                    assert_eq!(v, x_at(&high, j));
-                    assert!(if strict { v > q } else { v >= q });
-                    if j > 0 {
-                        let prev = x_at(&high, j - 1);
-                        assert!(if strict { prev <= q } else { prev < q });
+        // succ / pred, strict and not: one harness for "the answer is an element that qualifies, and None
+        // exactly when no element does" and one for "it is the first / last such element".
+        macro_rules! succ_pred {
+            ($value:ident, $extremal:ident, $succ:expr, $strict:expr) => {
+                #[kani::proof]
+                #[kani::unwind(50)]
+                #[kani::stub(f64::log2, log2_tab)]
+                pub fn $value() {
+                    let (ef, high) = any_state();
+                    let q: usize = kani::any();
+                    let ok = |v: usize| if $succ { if $strict { v > q } else { v >= q } } else { if $strict { v < q } else { v <= q } };
+                    let edge = x_at(&high, if $succ { N - 1 } else { 0 });
+                    let r = match ($succ, $strict) {
+                        (true, false) => ef.succ(q),
+                        (true, true) => ef.succ_strict(q),
+                        (false, false) => ef.pred(q),
+                        (false, true) => ef.pred_strict(q),
+                    };
+                    match r {
+                        None => assert!(!ok(edge)),
+                        Some((j, v)) => {
+                            assert!(ok(edge) && j < N);
+                            assert_eq!(v, x_at(&high, j));
+                            assert!(ok(v));
+                        }
                     }
-                    kani::cover!(j > 0 && v >= 64 + x_at(&high, j - 1), "successor across an all-zero word of upper bits");
+                    kani::cover!(r.is_some());
+                    kani::cover!(r.is_none());
+                    std::mem::forget(ef);
                 }
-            }
-            std::mem::forget(ef);
+
+                #[kani::proof]
+                #[kani::unwind(50)]
+                #[kani::stub(f64::log2, log2_tab)]
+                pub fn $extremal() {
+                    let (ef, high) = any_state();
+                    let q: usize = kani::any();
+                    let ok = |v: usize| if $succ { if $strict { v > q } else { v >= q } } else { if $strict { v < q } else { v <= q } };
+                    let r = match ($succ, $strict) {
+                        (true, false) => ef.succ(q),
+                        (true, true) => ef.succ_strict(q),
+                        (false, false) => ef.pred(q),
+                        (false, true) => ef.pred_strict(q),
+                    };
+                    if let Some((j, v)) = r {
+                        kani::assume(j < N);
+                        if $succ {
+                            if j > 0 {
+                                let prev = x_at(&high, j - 1);
+                                assert!(!ok(prev));
+                                kani::cover!(v >= prev + 64, "successor across an all-zero word of upper bits");
+                            }
+                        } else {
+                            if j + 1 < N {
+                                let next = x_at(&high, j + 1);
+                                assert!(!ok(next));
+                                kani::cover!(next >= v + 70 && q >= v + 69, "predecessor found two words before the bucket of the query");
+                            }
+                        }
+                    }
+                    std::mem::forget(ef);
+                }
+            };
         }
+        succ_pred!(succ_value, succ_first, true, false);
+        succ_pred!(pred_value, pred_last, false, false);
+        // the strict variants from an arbitrary state do not fit (with l = 0 the backward / forward scan over
+        // equal elements is a data-dependent loop of up to N heavy iterations: out of memory / 25 min);
+        // they are decided on the (n,u) grid only
 
         #[kani::proof]
-        #[kani::unwind(70)]
-        #[kani::stub(f64::log2, log2_tab)]
-        pub fn pred_from_any_state() {
-            let (ef, high) = any_state();
-            let q: usize = kani::any();
-            let strict: bool = kani::any();
-            let first = x_at(&high, 0);
-            let none = if strict { first >= q } else { first > q };
-            let r = if strict { ef.pred_strict(q) } else { ef.pred(q) };
-            match r {
-                None => assert!(none),
-                Some((j, v)) => {
-                    assert!(!none && j < N);
-                    assert_eq!(v, x_at(&high, j));
-                    assert!(if strict { v < q } else { v <= q });
-                    if j + 1 < N {
-                        let next = x_at(&high, j + 1);
-                        assert!(if strict { next >= q } else { next > q });
-                        kani::cover!(next >= v + 70 && q >= v + 69, "predecessor found two words before the bucket of the query");
-                    }
-                }
-            }
-            std::mem::forget(ef);
-        }
-
-        #[kani::proof]
-        #[kani::unwind(70)]
+        #[kani::unwind(50)]
         #[kani::stub(f64::log2, log2_tab)]
         pub fn index_of_from_any_state() {
             let (ef, high) = any_state();
